@@ -7,7 +7,7 @@ from __future__ import annotations
 
 import ast
 
-from ..alg import Poly, Q, monomials_upto, abs_eval, within_roundoff
+from ..alg import Poly, Q, monomials_upto, abs_eval, within_roundoff, is_zero
 from ..elems import ElemLib, to_poly
 from ..repo import AnalysisError, dotted, norm_text
 from ..xeval import Interp, XObj, Closure, XRaise
@@ -280,3 +280,52 @@ def run(ctx):
     lagrange_rules(ctx, lib)
     hermite_rules(ctx)
     accessor_rules(ctx)
+    ctx.attempt(evaluation_path_rule, ctx, lib)
+
+
+def evaluation_path_rule(ctx, lib):
+    """R6.9: the tables are consumed through _GroupElem._Eval_Functions.  Evaluating the shape functions of every element
+    at its own node coordinates AS THE CLASS RETURNS THEM (integer arrays for the elements whose nodes have integer
+    coordinates) and at the element centre gives delta_ij and a partition of unity -- the evaluation buffer does not
+    take the integer type of the evaluation points (numpy would truncate every value towards zero)."""
+    from ..xarray import XTruncation
+    from ..xeval import Uninterpretable
+
+    repo = ctx.repo
+    r = ctx.rule("R6.9", "evaluation path: _Eval_Functions(N, Get_Local_Coords()) == identity and the functions sum to one at an integer-typed interior / boundary point, for every element class", min_instances=15)
+    ge = repo.cls("EasyFEA.FEM._group_elem._GroupElem")
+    fe = ge.methods["_Eval_Functions"]
+    for name in sorted(lib.names()):
+        ed = lib.get(name)
+        r.instance(fn=fe.qualname)
+        I = Interp(repo)
+        pts = I.call_function(repo.lookup_method(ed.cls, "Get_Local_Coords"), [], self_obj=ed.obj)
+        pts = XArray.from_nested(pts)
+        if pts.ndim == 1:
+            pts = XArray((pts.shape[0], 1), pts.data, pts.dtype)
+        N = I.call_function(repo.lookup_method(ed.cls, "_N"), [], self_obj=ed.obj)
+        bad = None
+        try:
+            out = XArray.from_nested(I.call_function(fe, [N, pts]))
+            if out.shape != (ed.nPe, 1, ed.nPe):
+                bad = f"shape {out.shape}"
+            else:
+                for p in range(ed.nPe):
+                    for n in range(ed.nPe):
+                        if not is_zero(Poly.of(out[p, 0, n]) - (1 if p == n else 0)):
+                            bad = f"N_{n + 1}(node {p + 1}) = {out[p, 0, n]!r}"
+            # an integer-typed point that is not a node: the origin of the reference element
+            org = XArray((1, ed.dim), [0] * ed.dim, "i")
+            out0 = XArray.from_nested(I.call_function(fe, [N, org]))
+            tot = sum((Poly.of(out0[0, 0, n]) for n in range(ed.nPe)), Poly())
+            if bad is None and not is_zero(tot - 1):
+                bad = f"sum_i N_i(origin) = {tot!r}"
+        except (Uninterpretable, XTruncation) as e:
+            if "integer type" in str(e):
+                bad = f"evaluated at integer-typed points (dtype of {'Get_Local_Coords()' if pts.dtype == 'i' else 'the origin [0, ...]'}): {str(e).split(': ', 1)[-1] if ': ' in str(e) else e}"
+            else:
+                raise
+        if bad:
+            r.fail(fe.qualname, f"eval:{name}", fe.file, fe.lineno, "_Eval_Functions", f"{name}: {bad}")
+        else:
+            r.ok(f"{name}: N(nodes) == I through _Eval_Functions ({'integer' if pts.dtype == 'i' else 'float'} node coordinates)")
